@@ -513,6 +513,221 @@ Section ConcProofs.
     destruct (populate_ok (c_fs st f) c true (f_pc (c_fs st f)) G1 V) as [P1 P2].
     apply populated_verified; assumption.
   Qed.
+  (** ** the code before fix-c10-3 (atomic registration, a self-registered fetch trusts the hasher): safe as long as the
+      fetches overlap, i.e. nobody registers after somebody has returned *)
+  Section Overlap.
+    Notation step := (cstep_fn cdecode verify true true k).
+
+    Definition holds_body (p : @fpc cbytes) : bool :=
+      match p with FSub _ (Some _) | FGot _ _ | FNotified _ _ => true | _ => false end.
+    Definition anydone (st : cstate) : Prop := exists o, f_done (c_fs st o) = true.
+
+    Record Inv3 (st : cstate) : Prop := mkInv3 {
+      i3_self : forall i, f_done (c_fs st i) = true ->
+                          orig_inflight (f_pc (c_fs st i)) = true \/ returned (f_pc (c_fs st i)) = true;
+      i3_uniq : forall i j, f_done (c_fs st i) = true -> orig_inflight (f_pc (c_fs st j)) = true -> i = j;
+      i3_pend : c_pend st <> [] -> anydone st;
+      i3_body : forall j, holds_body (f_pc (c_fs st j)) = true -> anydone st;
+      i3_ret : forall i, f_pc (c_fs st i) = FRet true -> populated (c_fs st i) }.
+
+    Definition reg_step_ok (st : cstate) (s : @cstep cbytes) : Prop :=
+      match s with SReg _ => forall j, returned (f_pc (c_fs st j)) = false | _ => True end.
+
+    (** fetch [f] moves on without registering, returning or touching its Block *)
+    Lemma Inv3_move (st : cstate) f p' o' :
+      Inv3 st ->
+      orig_inflight p' = orig_inflight (f_pc (c_fs st f)) -> returned p' = returned (f_pc (c_fs st f)) ->
+      (holds_body p' = true -> holds_body (f_pc (c_fs st f)) = true) -> returned p' = false ->
+      Inv3 (mkc (upd (c_fs st) f (set_pc (c_fs st f) p')) o' (c_pend st)).
+    Proof.
+      intros H Eo Er Eb Enr.
+      assert (AD : anydone st -> anydone (mkc (upd (c_fs st) f (set_pc (c_fs st f) p')) o' (c_pend st))).
+      { intros [o Ho]. exists o. cbn. unfold upd. destruct (Nat.eqb o f) eqn:J; [apply Nat.eqb_eq in J; subst; exact Ho|exact Ho]. }
+      split; cbn.
+      - intros i. unfold upd. destruct (Nat.eqb i f) eqn:J.
+        + apply Nat.eqb_eq in J. subst i. cbn. rewrite Eo, Er. apply (i3_self _ H).
+        + apply (i3_self _ H).
+      - intros i j. unfold upd. destruct (Nat.eqb i f) eqn:Ji; destruct (Nat.eqb j f) eqn:Jj; cbn;
+          try (apply Nat.eqb_eq in Ji; subst i); try (apply Nat.eqb_eq in Jj; subst j); rewrite ?Eo; try apply (i3_uniq _ H); auto.
+      - intros Hp. apply AD, (i3_pend _ H), Hp.
+      - intros j. unfold upd. destruct (Nat.eqb j f) eqn:J; cbn.
+        + apply Nat.eqb_eq in J. subst j. intros Hb. apply AD, (i3_body _ H f), Eb, Hb.
+        + intros Hb. apply AD, (i3_body _ H j), Hb.
+      - intros i. unfold upd. destruct (Nat.eqb i f) eqn:J; cbn.
+        + intros E. rewrite E in Enr. discriminate.
+        + apply (i3_ret _ H).
+    Qed.
+
+    Lemma offer_fields b (x : fetcher) :
+      f_blk (offer b x) = f_blk x /\ f_done (offer b x) = f_done x /\
+      orig_inflight (f_pc (offer b x)) = orig_inflight (f_pc x) /\ returned (f_pc (offer b x)) = returned (f_pc x) /\
+      (f_pc (offer b x) = FRet true -> f_pc x = FRet true) /\
+      (holds_body (f_pc (offer b x)) = true -> holds_body (f_pc x) = true \/ True).
+    Proof.
+      unfold offer. destruct (f_pc x) as [| | |d [bb|]| | |] eqn:E; cbn; rewrite ?E; repeat split; auto; discriminate.
+    Qed.
+
+    (** the exchange publishes a body; [pend'] is what remains decoded-but-unpublished *)
+    Lemma Inv3_publish (st : cstate) b pend' :
+      Inv3 st -> anydone st -> Inv3 (mkc (publish b (c_fs st)) (c_owner st) pend').
+    Proof.
+      intros H [o Ho].
+      assert (AD : anydone (mkc (publish b (c_fs st)) (c_owner st) pend')).
+      { exists o. cbn. unfold publish. destruct (offer_fields b (c_fs st o)) as [_ [-> _]]. exact Ho. }
+      split; cbn; unfold publish.
+      - intros i. destruct (offer_fields b (c_fs st i)) as [_ [-> [-> [-> _]]]]. apply (i3_self _ H).
+      - intros i j. destruct (offer_fields b (c_fs st i)) as [_ [-> _]].
+        destruct (offer_fields b (c_fs st j)) as [_ [_ [-> _]]]. apply (i3_uniq _ H).
+      - intros _. exact AD.
+      - intros j _. exact AD.
+      - intros i E. destruct (offer_fields b (c_fs st i)) as [Eb [_ [_ [_ [Hr _]]]]].
+        unfold populated. rewrite Eb. apply (i3_ret _ H), Hr, E.
+    Qed.
+
+    (** the hasher accepts a body on the entry of the owner *)
+    Lemma Inv3_accept (st : cstate) o c pend' :
+      Inv3 st -> Inv2 st -> c_owner st = Some o ->
+      Inv3 (mkc (upd (c_fs st) o (mkf (populate (f_blk (c_fs st o)) c) true (f_pc (c_fs st o)))) (c_owner st) pend').
+    Proof.
+      intros H [K2 K3] O.
+      assert (AD : anydone (mkc (upd (c_fs st) o (mkf (populate (f_blk (c_fs st o)) c) true (f_pc (c_fs st o)))) (c_owner st) pend')).
+      { exists o. cbn. rewrite upd_same. reflexivity. }
+      split; cbn.
+      - intros i. unfold upd. destruct (Nat.eqb i o) eqn:J; cbn.
+        + intros _. left. apply K2, O.
+        + apply (i3_self _ H).
+      - intros i j. unfold upd. destruct (Nat.eqb i o) eqn:Ji; destruct (Nat.eqb j o) eqn:Jj; cbn;
+          try (apply Nat.eqb_eq in Ji; subst i); try (apply Nat.eqb_eq in Jj; subst j); auto.
+        + intros _ Hj. apply K3 in Hj. rewrite O in Hj. inversion Hj. reflexivity.
+        + intros Hi Hj. apply (i3_uniq _ H i o Hi Hj).
+        + apply (i3_uniq _ H).
+      - intros _. exact AD.
+      - intros j _. exact AD.
+      - intros i. unfold upd. destruct (Nat.eqb i o) eqn:J; cbn.
+        + apply Nat.eqb_eq in J. subst i. intros E. pose proof (K2 _ O) as Ho. rewrite E in Ho. discriminate.
+        + apply (i3_ret _ H).
+    Qed.
+
+    (** fetch [f] returns; its Block may have been filled by its own check ([x']) *)
+    Lemma Inv3_ret (st : cstate) f (x' : fetcher) d ok :
+      Inv3 st -> f_done x' = f_done (c_fs st f) ->
+      (f_done (c_fs st f) = true -> d = false) ->
+      (ok = true -> populated x') ->
+      Inv3 (ret st f x' d ok).
+    Proof.
+      intros H Ed Hd Hp. unfold ret.
+      assert (AD : anydone st -> anydone (mkc (upd (c_fs st) f (set_pc x' (FRet ok))) (if d then c_owner st else None) (c_pend st))).
+      { intros [o Ho]. exists o. cbn. unfold upd. destruct (Nat.eqb o f) eqn:J; cbn; [apply Nat.eqb_eq in J; subst; rewrite Ed; exact Ho|exact Ho]. }
+      split; cbn.
+      - intros i. unfold upd. destruct (Nat.eqb i f) eqn:J; cbn; [intros _; right; reflexivity|apply (i3_self _ H)].
+      - intros i j. unfold upd. destruct (Nat.eqb j f) eqn:Jj; cbn; [discriminate|].
+        destruct (Nat.eqb i f) eqn:Ji; cbn; [|apply (i3_uniq _ H)].
+        apply Nat.eqb_eq in Ji. subst i. rewrite Ed. apply (i3_uniq _ H).
+      - intros Hpd. apply AD, (i3_pend _ H), Hpd.
+      - intros j. unfold upd. destruct (Nat.eqb j f) eqn:J; cbn; [discriminate|]. intros Hb. apply AD, (i3_body _ H j), Hb.
+      - intros i. unfold upd. destruct (Nat.eqb i f) eqn:J; cbn.
+        + intros E. inversion E. unfold populated in *. cbn. apply Hp. assumption.
+        + apply (i3_ret _ H).
+    Qed.
+
+    Lemma Inv3_step (st : cstate) s : reg_step_ok st s -> Inv2 st -> Inv1 true st -> Inv3 st -> Inv3 (step st s).
+    Proof.
+      intros Hreg H2 H1 H. pose proof H2 as [K2 K3].
+      destruct s as [f|f|f|f|b|i|b|f|f|f]; cbn [cstep_fn].
+      - (* enter *)
+        destruct (f_pc (c_fs st f)) eqn:E; try exact H.
+        apply Inv3_move; rewrite ?E; auto; discriminate.
+      - (* reg *)
+        destruct (f_pc (c_fs st f)) eqn:E; try exact H. destruct (c_owner st) as [o|] eqn:O; cbn [is_some].
+        + rewrite <- O. apply Inv3_move; rewrite ?E; auto; discriminate.
+        + (* the first to register: nothing has been decoded yet *)
+          assert (ND : forall i, f_done (c_fs st i) = true -> False).
+          { intros i Hi. destruct (i3_self _ H i Hi) as [Ho|Hr].
+            - apply K3 in Ho. congruence.
+            - cbn in Hreg. rewrite Hreg in Hr. discriminate. }
+          split; cbn.
+          * intros i. unfold upd. destruct (Nat.eqb i f); cbn; intros Hi; [left; reflexivity|exfalso; eapply ND; eassumption].
+          * intros i j. unfold upd. destruct (Nat.eqb i f) eqn:Ji; cbn; intros Hi; exfalso.
+            -- apply Nat.eqb_eq in Ji. subst i. eapply ND; eassumption.
+            -- eapply ND; eassumption.
+          * intros Hp. destruct (i3_pend _ H Hp) as [o Ho]. exfalso. eapply ND; eassumption.
+          * intros j. unfold upd. destruct (Nat.eqb j f); cbn; [discriminate|].
+            intros Hb. destruct (i3_body _ H j Hb) as [o Ho]. exfalso. eapply ND; eassumption.
+          * intros i. unfold upd. destruct (Nat.eqb i f); cbn; [discriminate|apply (i3_ret _ H)].
+      - (* sub *)
+        destruct (f_pc (c_fs st f)) eqn:E; try exact H.
+        apply Inv3_move; rewrite ?E; auto; try discriminate; try (destruct dup; reflexivity).
+      - (* cancel *)
+        destruct (f_pc (c_fs st f)) eqn:E; try exact H.
+        + apply Inv3_ret; auto; [|discriminate].
+          intros Hd. destruct (i3_self _ H f Hd) as [Ho|Hr]; rewrite E in *; [destruct dup; [discriminate|reflexivity]|discriminate].
+        + apply Inv3_ret; auto; [|discriminate].
+          intros Hd. destruct (i3_self _ H f Hd) as [Ho|Hr]; rewrite E in *; [destruct dup; [discriminate|reflexivity]|discriminate].
+      - (* check *)
+        destruct (check cdecode verify k st b) as [st' ok] eqn:C. apply check_spec in C.
+        destruct C as [[-> ->]|[-> [o [c [O [V ->]]]]]]; [exact H|]. cbn [c_fs c_owner c_pend].
+        apply Inv3_accept; assumption.
+      - (* publish *)
+        destruct (nth_error (c_pend st) i) eqn:N; [|exact H].
+        apply Inv3_publish; [exact H|]. apply (i3_pend _ H). intros E. rewrite E in N. destruct i; discriminate.
+      - (* deliver *)
+        destruct (check cdecode verify k st b) as [st' ok] eqn:C. apply check_spec in C.
+        destruct C as [[-> ->]|[-> [o [c [O [V ->]]]]]]; [exact H|]. cbn [c_fs c_owner c_pend].
+        pose proof (Inv3_accept st o c (c_pend st) H H2 O) as H'.
+        apply (Inv3_publish _ b (c_pend st) H'). exists o. cbn. rewrite upd_same. reflexivity.
+      - (* recv *)
+        destruct (f_pc (c_fs st f)) as [| | |d [bb|]| | |] eqn:E; try exact H.
+        apply Inv3_move; rewrite ?E; auto; try (destruct d; reflexivity).
+      - (* notify *)
+        destruct (f_pc (c_fs st f)) eqn:E; try exact H.
+        assert (AD : anydone st) by (apply (i3_body _ H f); rewrite E; reflexivity).
+        apply (Inv3_publish (mkc (upd (c_fs st) f (set_pc (c_fs st f) (FNotified dup b))) (c_owner st) (c_pend st)) b (c_pend st)).
+        + apply Inv3_move; rewrite ?E; auto; try (destruct dup; reflexivity).
+        + destruct AD as [o Ho]. exists o. cbn. unfold upd. destruct (Nat.eqb o f) eqn:J; [apply Nat.eqb_eq in J; subst; exact Ho|exact Ho].
+      - (* finish *)
+        destruct (f_pc (c_fs st f)) eqn:E; try exact H.
+        assert (Hdd : f_done (c_fs st f) = true -> dup = false).
+        { intros Hd. destruct (i3_self _ H f Hd) as [Ho|Hr]; rewrite E in *; [destruct dup; [discriminate|reflexivity]|discriminate]. }
+        destruct dup; cbn [negb andb orb].
+        + destruct (dup_unmarshal cdecode verify false (f_blk (c_fs st f)) b) as [e'|] eqn:U.
+          * apply Inv3_ret; auto. intros _.
+            destruct (dup_good true _ _ _ (f_done (c_fs st f)) (FNotified true b) (H1 f) U) as [_ P]. exact P.
+          * apply Inv3_ret; auto. discriminate.
+        + (* "the block was populated by the hasher": it was, because a body is in flight only after the hasher ran on the
+             entry of the one fetch that registered the CID — this one *)
+          apply Inv3_ret; auto. intros _.
+          destruct (i3_body _ H f) as [o Ho]; [rewrite E; reflexivity|].
+          assert (o = f) by (apply (i3_uniq _ H o f Ho); rewrite E; reflexivity). subst o.
+          destruct (H1 f) as [_ [G2 _]]. apply G2, Ho.
+    Qed.
+
+    Lemma Inv3_init blk0 : Inv3 (cinit blk0).
+    Proof. split; cbn; intros; try discriminate; try contradiction. Qed.
+
+    Lemma Inv3_run tr : forall st : cstate,
+      overlapping cdecode verify true true k st tr -> Inv2 st -> Inv1 true st -> Inv3 st ->
+      Inv3 (crun cdecode verify true true k st tr).
+    Proof.
+      induction tr as [|s tr IH]; intros st Ho H2 H1 H3; [exact H3|].
+      cbn in Ho. destruct Ho as [Hs Ho]. cbn. apply IH; [exact Ho|apply Inv2_step; exact H2|apply Inv1_step; exact H1|].
+      apply Inv3_step; auto; destruct s; auto.
+    Qed.
+  End Overlap.
+
+  (** conc_fetch_sound_overlap: the code before fix-c10-3 — atomic registration, a self-registered fetch trusts the hasher —
+      for EVERY interleaving in which the fetches overlap (nobody registers after somebody has returned): a Fetch that
+      returns nil holds a populated Block verified against its own roots.  [conc_trust_refuted] shows that the side
+      condition is needed, [conc_twostep_refuted] that the atomic registration is. *)
+  Theorem conc_fetch_sound_overlap (blk0 : nat -> entry root cont) tr :
+    (forall i, e_cont (blk0 i) = None) ->
+    overlapping cdecode verify true true k (cinit blk0) tr ->
+    fetch_safe verify (crun cdecode verify true true k (cinit blk0) tr).
+  Proof.
+    intros H0 Ho i Hr.
+    pose proof (Inv3_run tr _ Ho (Inv2_init blk0) (Inv1_init true blk0 H0) (Inv3_init blk0)) as H3.
+    pose proof (Inv1_run true true tr _ (Inv1_init true blk0 H0) i) as [G1 _].
+    apply populated_verified; [exact G1|]. apply (i3_ret _ H3), Hr.
+  Qed.
 End ConcProofs.
 
 (** ** witnesses: what the two variants break.  One sample identifier; a container is the name of the roots it verifies
@@ -608,4 +823,17 @@ Proof.
   - intros l. rewrite map_map. rewrite <- (map_id l) at 2. apply map_ext. intros. lia.
   - right. reflexivity.
   - unfold row_verifies. cbn. discriminate.
+Qed.
+
+(** non-vacuity of [conc_fetch_sound_overlap]: the window trace is overlapping for the atomic registration, and there both
+    fetches end with nil and verified data (fetch 0 filled by the hasher, fetch 1 by its duplicate path) *)
+Example conc_overlap_nonvacuous :
+  let tr := (w_twostep ++ [SRecv 1; SNotify 1; SFinish 1])%nat in
+  let st := w_run true true (fun _ => false) tr in
+  overlapping w_dec w_ver true true w_k (cinit (fun _ => w_blk false)) tr /\
+  f_pc (c_fs st 0%nat) = FRet true /\ e_cont (f_blk (c_fs st 0%nat)) = Some false /\
+  f_pc (c_fs st 1%nat) = FRet true /\ e_cont (f_blk (c_fs st 1%nat)) = Some false /\ c_owner st = None.
+Proof.
+  split; [|vm_compute; repeat split].
+  cbn. repeat split; intros j; unfold upd; repeat (destruct (Nat.eqb j _)); reflexivity.
 Qed.
